@@ -182,6 +182,9 @@ Section SFrame.
   Hypothesis Hsnap : fo_ran fo = true -> SN' (sv_tick s') (sv_now s) s'.
   Hypothesis Hbound : fo_ran fo = true -> forall t r s1, SN t r s1 -> t < sv_tick s'.
   Hypothesis Hpos : fo_ran fo = true -> 1 <= sv_tick s'.
+  Hypothesis Hmax : sv_now s < MAX_CHANGE_AGE.
+  Hypothesis Hsnap' : forall t r s0, SN' t r s0 -> SN t r s0 \/ (fo_ran fo = true /\ t = sv_tick s' /\ r = sv_now s /\ s0 = s').
+  Hypothesis Hboundr : forall t r s1, SN t r s1 -> r < sv_now s.
 
   Variables (slot : N) (cli : client) (pend : list update_msg) (muts : list mutate_msg) (acks : list N) (regs : N).
   Hypothesis Hcli : cli_inv SN s cli pend muts.
@@ -189,6 +192,8 @@ Section SFrame.
     srv_slot_inv SN s rec cli pend muts (acks_for slot (sv_inbox_acks s) ++ acks) /\
     ct_mutate_index (sc_ticks rec) = regs /\ (sc_authorized rec = false -> sc_ticks rec = ct_default).
   Hypothesis Hwrap : regs + N.of_nat (length (mutates_for slot (fo_clients fo))) < 2 ^ 16.
+  Hypothesis Hpend : forall rec, In rec (sv_clients s) -> sc_slot rec = slot -> sc_authorized rec = true ->
+    pending_ok s (sc_ticks rec) (fold_left abs_apply pend (client_struct cli)).
 
   Local Notation s3 := (fr_pre c s tick dt cleanup ops).
   Local Notation F := (fun cl => cleanup_rec c (sv_elapsed s + dt - cfg_timeout c) cleanup (ack_client (sv_now s) (sv_inbox_acks s) cl)).
@@ -227,7 +232,8 @@ Section SFrame.
   Lemma sf_rec3 rec : In rec (sv_clients s) -> sc_slot rec = slot ->
     sc_slot (F rec) = slot /\ sc_authorized (F rec) = sc_authorized rec /\ sc_vis (F rec) = None /\ sc_pending_map (F rec) = [] /\
     srv_slot_inv SN s3 (F rec) cli pend muts acks /\ ct_mutate_index (sc_ticks (F rec)) = regs /\
-    (sc_authorized rec = false -> sc_ticks (F rec) = ct_default).
+    (sc_authorized rec = false -> sc_ticks (F rec) = ct_default) /\
+    (sc_authorized rec = true -> pending_ok s3 (sc_ticks (F rec)) (fold_left abs_apply pend (client_struct cli))).
   Proof.
     intros Hin Hs. destruct (Hrec rec Hin Hs) as (S1 & S2 & S3).
     destruct (ack_client_frame (sv_now s) (sv_inbox_acks s) rec) as (A1 & A2 & A3 & A4 & A5).
@@ -245,7 +251,7 @@ Section SFrame.
     { unfold rec2, ack_client. destruct (sc_authorized rec) eqn:Ea.
       - cbn [sc_ticks]. split; [|split; [|discriminate]].
         + apply (srv_slot_ticks SN s (with_ticks rec (ack_all (sc_ticks rec) (sv_now s) (acks_for (sc_slot rec) (sv_inbox_acks s))))); [reflexivity|].
-          apply srv_slot_ack_all. rewrite Hs. exact S1.
+          apply srv_slot_ack_all; [exact Hmax|]. rewrite Hs. exact S1.
         + rewrite <- S2. clear. generalize (sc_ticks rec) as t. induction (acks_for (sc_slot rec) (sv_inbox_acks s)) as [|i r IH]; intros t; [reflexivity|].
           rewrite ack_all_cons, IH. exact (proj1 (proj2 (ack_frame t (sv_now s) i))).
       - split; [|split; [exact S2|exact S3]]. apply (srv_slot_sub SN s rec cli pend muts (acks_for slot (sv_inbox_acks s) ++ acks)); [auto| |exact S1].
@@ -257,12 +263,20 @@ Section SFrame.
       - apply (srv_slot_ticks SN s (with_ticks rec2 (cleanup_older_mutations (sc_ticks rec2) (sv_elapsed s + dt - cfg_timeout c)))); [reflexivity|].
         apply srv_slot_cleanup. exact T1.
       - intros Hu. rewrite (T3 Hu). reflexivity. }
-    destruct H3 as (U1 & U2 & U3). split; [|split; [exact U2|exact U3]].
-    apply (srv_slot_srv SN SN s); [auto|exact sf_dead|rewrite <- sf_tick3; exact Htk3|exact U1].
+    destruct H3 as (U1 & U2 & U3). split; [|split; [exact U2|split; [exact U3|]]].
+    - apply (srv_slot_srv SN SN s); [auto|intros e0 a0 t0 r0 s0 _ H0 _; exact H0|exact sf_dead|rewrite <- sf_tick3; exact Htk3| |exact U1].
+      destruct FR as (_ & _ & E & _). cbv zeta in E. rewrite E. lia.
+    - intros Hau. destruct (frame_running_pre c s tick dt cleanup ops Hok Hrun Hnd) as (_ & _ & _ & _ & _ & Hpre). cbv zeta in Hpre.
+      pose proof (Hpre _ _ (Hpend rec Hin Hs Hau)) as Hp. change (buffer_removals (fold_left apply_sop ops s2)) with s3 in Hp.
+      apply (pending_ok_ticks s3 (sc_ticks rec)); [|exact Hp]. intros e0.
+      unfold rec3, cleanup_rec, rec2, ack_client. rewrite Hau.
+      assert (Hk : mutation_tick (ack_all (sc_ticks rec) (sv_now s) (acks_for (sc_slot rec) (sv_inbox_acks s))) e0 <> None <-> mutation_tick (sc_ticks rec) e0 <> None).
+      { unfold ack_all. apply ack_fold_keeps_known. }
+      destruct cleanup; cbn [sc_ticks]; exact Hk.
   Qed.
 
   Lemma sf_cli3 : cli_inv SN s3 cli pend muts.
-  Proof. apply (cli_inv_srv SN SN s); [auto|exact sf_dead|exact Hcli]. Qed.
+  Proof. apply (cli_inv_srv SN SN s); [auto|intros t r s0 H0; left; exact H0|exact sf_dead|exact Hcli]. Qed.
 
   Definition sf_extra : list update_msg := match upd_for slot (fo_clients fo) with Some u => [u] | None => [] end.
   Definition sf_newm : list mutate_msg := mutates_for slot (fo_clients fo).
@@ -281,19 +295,34 @@ Section SFrame.
   Lemma sf_nodup3 : NoDup (map sc_slot (map F (sv_clients s))).
   Proof. rewrite map_map. rewrite (map_ext (fun x => sc_slot (F x)) sc_slot); [exact Hnd|]. intros a. exact (proj1 (sf_F_slot a)). Qed.
 
+  Lemma sf_new_r t r s0 : SN' t r s0 -> SN t r s0 \/ forall t0 r0 s00, SN t0 r0 s00 -> r0 < r.
+  Proof. intros H. destruct (Hsnap' t r s0 H) as [Ho|(_ & _ & -> & _)]; [left; exact Ho|right]. intros t0 r0 s00 H0. exact (Hboundr _ _ _ H0). Qed.
+
+  Lemma sf_now3 : sv_now s3 = sv_now s.
+  Proof. destruct FR as (_ & _ & E & _). exact E. Qed.
+
+  Lemma sf_now' : sv_now s3 <= sv_now s'.
+  Proof.
+    destruct FR as (_ & _ & _ & _ & _ & Hc). cbv zeta in Hc.
+    destruct (sv_dirty s || tick); destruct Hc as [-> _]; cbn; lia.
+  Qed.
+
   (* nothing is sent to the slot *)
   Lemma sf_quiet : sf_extra = [] -> sf_newm = [] ->
     (forall rec', In rec' (sv_clients s') -> sc_slot rec' = slot -> exists rec, In rec (sv_clients s) /\ sc_slot rec = slot /\ rec' = F rec) ->
+    (fo_ran fo = true -> forall rec, In rec (sv_clients s) -> sc_slot rec = slot -> sc_authorized rec = false) ->
     cli_inv SN' s' cli (pend ++ sf_extra) (muts ++ sf_newm) /\
     forall rec', In rec' (sv_clients s') -> sc_slot rec' = slot ->
       srv_slot_inv SN' s' rec' cli (pend ++ sf_extra) (muts ++ sf_newm) acks /\
       ct_mutate_index (sc_ticks rec') = regs + N.of_nat (length sf_newm) /\ (sc_authorized rec' = false -> sc_ticks rec' = ct_default).
   Proof.
-    intros E1 E2 Hrecs. rewrite E1, E2, !app_nil_r. split.
-    - apply (cli_inv_srv SN SN' s3); [exact Hsn|exact sf_dead'|exact sf_cli3].
+    intros E1 E2 Hrecs Hq. rewrite E1, E2, !app_nil_r. split.
+    - apply (cli_inv_srv SN SN' s3); [exact Hsn|exact sf_new_r|exact sf_dead'|exact sf_cli3].
     - intros rec' Hin Hs. destruct (Hrecs rec' Hin Hs) as (rec & Hr & Hsl & ->).
-      destruct (sf_rec3 rec Hr Hsl) as (_ & Ha & _ & _ & S1 & S2 & S3). cbn [length]. rewrite N.add_0_r. split; [|split; [exact S2|rewrite Ha; exact S3]].
-      apply (srv_slot_srv SN SN' s3); [exact Hsn|exact sf_dead'|rewrite sf_tick3; lia|exact S1].
+      destruct (sf_rec3 rec Hr Hsl) as (_ & Ha & _ & _ & S1 & S2 & S3 & _). cbn [length]. rewrite N.add_0_r. split; [|split; [exact S2|rewrite Ha; exact S3]].
+      apply (srv_slot_srv SN SN' s3); [exact Hsn| |exact sf_dead'|rewrite sf_tick3; lia|exact sf_now'|exact S1].
+      intros e0 a0 t0 r0 s0 Hst H0 _. destruct (Hsnap' t0 r0 s0 H0) as [Ho|(Hran & _)]; [exact Ho|].
+      exfalso. rewrite (S3 (Hq Hran rec Hr Hsl)) in Hst. discriminate.
   Qed.
 
   Theorem sframe_slot :
@@ -309,7 +338,8 @@ Section SFrame.
         - unfold sf_newm. rewrite Efo. reflexivity.
         - intros rec' Hin Hs. rewrite Es' in Hin. cbn [set_last_running sv_clients] in Hin. rewrite Hcl3 in Hin.
           apply in_map_iff in Hin. destruct Hin as [rec [E Hr]]. exists rec. split; [exact Hr|]. split; [|symmetry; exact E].
-          rewrite <- E in Hs. rewrite (proj1 (sf_F_slot rec)) in Hs. exact Hs. }
+          rewrite <- E in Hs. rewrite (proj1 (sf_F_slot rec)) in Hs. exact Hs.
+        - intros Hran. rewrite Efo in Hran. discriminate. }
     destruct Hc as [Es' Efo].
     assert (Hran : fo_ran fo = true) by (rewrite Efo; reflexivity).
     assert (Houts : fo_clients fo = outs_of (map (client_result_pure c s3 parts) (sv_clients s3))) by (rewrite Efo; reflexivity).
@@ -318,7 +348,7 @@ Section SFrame.
     destruct (find (fun cl => (sc_slot cl =? slot) && sc_authorized cl) (sv_clients s)) as [rec|] eqn:Efind.
     - (* the slot has an authorized record *)
       apply find_some in Efind. destruct Efind as [Hr Hb]. apply andb_prop in Hb. destruct Hb as [Hsl Hau]. assert (Hsl' : sc_slot rec = slot) by lia.
-      destruct (sf_rec3 rec Hr Hsl') as (R1 & R2 & R3 & R4 & R5 & R6 & _).
+      destruct (sf_rec3 rec Hr Hsl') as (R1 & R2 & R3 & R4 & R5 & R6 & _ & R8).
       set (rec3 := F rec) in *. assert (Hin3 : In rec3 (sv_clients s3)) by (rewrite Hcl3; exact (in_map F _ rec Hr)).
       assert (Hau3 : sc_authorized rec3 = true) by congruence.
       set (p := part_for parts rec3).
@@ -333,15 +363,20 @@ Section SFrame.
       assert (Ht' : sv_tick s' = sv_tick s3) by exact sf_tick3.
       assert (Hnw : ct_mutate_index (sc_ticks rec3) + N.of_nat (length (co_mutates (snd (sfc_pure c s3 (sv_now s3) rec3 p)))) < 2 ^ 16).
       { rewrite R6, <- En. exact Hwrap. }
+      assert (Hbr3 : forall t r s1, SN t r s1 -> r < sv_now s3) by (intros t r s1 H0; rewrite sf_now3; exact (Hboundr _ _ _ H0)).
+      assert (Hsn3 : forall t r s0, SN' t r s0 -> SN t r s0 \/ (t = sv_tick s3 /\ r = sv_now s3 /\ s0 = s')).
+      { intros t r s0 H0. destruct (Hsnap' t r s0 H0) as [Ho|(_ & A & B & C)]; [left; exact Ho|right]. rewrite <- sf_tick3, sf_now3. auto. }
+      assert (Hn' : sv_now s' = sv_now s3 + 1) by (rewrite Es'; reflexivity).
+      assert (Hpd3 : pending_ok s3 (sc_ticks rec3) (fold_left abs_apply pend (client_struct cli))) by (apply R8; exact Hau).
       rewrite Ex, En. split.
-      + exact (send_cli SN SN' c s3 s' rec3 p cli pend muts acks Hsn Hnewsnap Hb3 Hp3 He' Ht' Hok3 R3 R4 sf_ents_ok sf_db_ok sf_cli3 R5 Hnw).
+      + exact (send_cli SN SN' c s3 s' rec3 p cli pend muts acks Hsn Hnewsnap Hb3 Hp3 He' Ht' Hok3 Hev3 R3 R4 sf_ents_ok sf_db_ok sf_cli3 R5 Hbr3 Hsn3 Hn' Hpd3 Hnw).
       + intros rec' Hin Hs. rewrite Hcls', map_map in Hin. apply in_map_iff in Hin. destruct Hin as [r3 [E Hr3]].
         assert (Hs3 : sc_slot r3 = slot).
         { rewrite <- E in Hs. unfold client_result_pure in Hs. destruct (sc_authorized r3); exact Hs. }
         assert (r3 = rec3) by (apply (nodup_slot_eq (sv_clients s3)); [exact Hnd3|exact Hr3|exact Hin3|congruence]). subst r3.
         assert (E' : rec' = fst (sfc_pure c s3 (sv_now s3) rec3 p)) by (rewrite <- E; unfold client_result_pure; rewrite Hau3; reflexivity).
         rewrite E'. split; [|split].
-        * exact (send_slot SN SN' c s3 s' rec3 p cli pend muts acks Hsn Hnewsnap Hb3 Hp3 He' Ht' Hok3 R3 R4 sf_ents_ok sf_db_ok sf_cli3 R5 Hnw).
+        * exact (send_slot SN SN' c s3 s' rec3 p cli pend muts acks Hsn Hnewsnap Hb3 Hp3 He' Ht' Hok3 Hev3 R3 R4 sf_ents_ok sf_db_ok sf_cli3 R5 Hbr3 Hsn3 Hn' Hpd3 Hnw).
         * rewrite (proj1 (sfc_regs c s3 rec3 p Hnw)), R6. reflexivity.
         * cbn. discriminate.
     - (* no authorized record: nothing is sent to the slot *)
@@ -359,6 +394,7 @@ Section SFrame.
         assert (E' : rec' = r3) by (rewrite <- E; unfold client_result_pure; rewrite (Hnone r3 Hr3 Hs3); reflexivity).
         rewrite Hcl3 in Hr3. apply in_map_iff in Hr3. destruct Hr3 as [rec [E3 Hr]]. exists rec. split; [exact Hr|].
         split; [rewrite <- (proj1 (sf_F_slot rec)); rewrite E3; exact Hs3|congruence].
+      + intros _ rec Hr Hs. pose proof (find_none _ _ Efind rec Hr) as Hf0. cbn in Hf0. destruct (sc_authorized rec); [|reflexivity]. lia.
   Qed.
 End SFrame.
 
